@@ -45,8 +45,8 @@ META = dict(
                'types.*.read / from_bytes / read_values', 'tdms.TdmsFile._read_file', 'tdms.TdmsFile._read_data',
                'channel_data.get_data_receiver'],
     bounds=dict(quick='(I) S<=2, K<=3, NV<=2, NC<=2, 17 types, both layouts, both byte orders, <=2 properties per object (8 property '
-                      'types); (Ka) all fields unbounded non-negative integers below 2^64; (Kb) K<=2 objects (thorough 3), value counts <= 2 (thorough 3) '
-                      '(symbolic), type sizes {1,2,4,8,16}, fewer than 4 (thorough 8) chunks',
+                      'types); (Ka) all fields unbounded non-negative integers below 2^64; (Kb) K<=2 objects (thorough 3), value counts <= 2 (thorough 3 for K<=2, 1 for K=3) '
+                      '(symbolic), type sizes {1,2,4,8,16}, fewer than 4 (thorough 8 for K<=2) chunks',
                 thorough='(I) S<=3, NV<=3, NC<=3'),
     outside=['default (datetime64) reading of timestamps whose seconds are outside datetime64[us] (NumPy raises OverflowError; range stated in C12)', 'larger files', 'values beyond the planted patterns', 'DAQmx (C11)', 'inheritance encodings (C02)'],
     stubs=['SymStream + struct model for the lead-in kernel', 'int()/isinstance/range on symbolic ints'],
@@ -81,13 +81,16 @@ def tasks(tier, seed):
         for k1 in range(3):
             for t0 in range(len(KC_TYPES)):
                 big = (k0 + k1 + t0) % 2 == 1
-                ts.append(dict(kind='kc', S=2 if tier == 'quick' else 3, big=big, lazy=(t0 % 2 == 0),
+                # thorough: three segments for one channel type per first-segment encoding (a 3-segment task costs ~15 CPU minutes)
+                ts.append(dict(kind='kc', S=3 if (tier != 'quick' and k1 != 0 and t0 == (k0 + k1) % len(KC_TYPES)) else 2, big=big, lazy=(t0 % 2 == 0),
                                fixed={'kind0_0': k0, 'kind0_1': k1, 'type0': t0}))
     for inter in (False, True):
         for incomplete in (False, True):
             for k in ((1, 2) if tier == 'quick' else (1, 2, 3)):
                 for s0 in range(5):
-                    ts.append(dict(kind='chunks', inter=inter, incomplete=incomplete, K=k, size0=s0, maxnv=2 if tier == 'quick' else 3, maxchunks=4 if tier == 'quick' else 8))
+                    deep = tier != 'quick' and k < 3          # three objects: counts <= 1 (the product of counts and sizes explodes)
+                    ts.append(dict(kind='chunks', inter=inter, incomplete=incomplete, K=k, size0=s0, maxnv=1 if k == 3 else (3 if deep else 2),
+                                   maxchunks=8 if deep else 4))
     return ts
 
 
